@@ -59,6 +59,25 @@ def enclosing_if_conditions(root, target):
     return path
 
 
+def names_the_listfile(node, mpq, depth=0):
+    """the expression (or function body) names the archive's own file list: the literal "(listfile)", a constant holding it, or a call of
+    a crate function that does (two levels)"""
+    consts = mpq.consts()
+    byp = {f.path: f for f in mpq.fn_list if f.hir and f.kind != "Closure"}
+    for x in hirq.walk(node):
+        if x.get("k") == "lit" and (x.get("v") or {}).get("str") == "(listfile)":
+            return True
+        if x.get("k") == "path" and "def" in (x.get("res") or {}):
+            c = consts.get(x["res"]["def"])
+            if isinstance(c, dict) and isinstance(c.get("v"), dict) and c["v"].get("repr") == '"(listfile)"':
+                return True
+        if x.get("k") in ("call", "mcall") and depth < 2:
+            g = byp.get(x.get("fn"))
+            if g is not None and re.search(r"::(rebuild|special_files)::", g.path) and names_the_listfile(g.hir["body"], mpq, depth + 1):
+                return True
+    return False
+
+
 def run(ctx):
     prog = ctx.prog
     mpq = prog.crate("wow_mpq")
@@ -256,7 +275,7 @@ def run(ctx):
                         continue
                     ci = inline(nc)
                     used = {x["res"]["local"] for x in hirq.walk(ci) if x.get("k") == "path" and "local" in x["res"]}
-                    names_lit = "(listfile)" in hirq.render(ci)
+                    names_lit = "(listfile)" in hirq.render(ci) or names_the_listfile(ci, mpq)
                     if used & iterated and names_lit:
                         ctx.ok(R_lf, {"call_line": c["ln"], "condition": hirq.render(ci)[:100], "collection": sorted(used & iterated)})
                     else:
@@ -398,3 +417,91 @@ def run(ctx):
             ctx.ok(R_verify, {"check": "content bytes"})
         else:
             ctx.bad(R_verify, "verify_rebuild|bytes", vr.where, "no `if source_data != target_data { return Err }`", "a target with altered content verifies")
+
+    _listing_rules(ctx, mpq)
+
+
+def _listing_rules(ctx, mpq):
+    """what the rebuild copies is what it lists: the listing must be the set of stored files, each once"""
+    byp = {f.path: f for f in mpq.fn_list if f.hir and f.kind != "Closure"}
+
+    # (1) Archive::list() reports the names the (listfile) holds.  A listfile need not name itself (Blizzard's do not), yet it is a file
+    # of the archive: rebuild and verification must count it on both sides, or a faithful rebuild fails its own verification and
+    # the source's listfile bytes are replaced by a regenerated text
+    R_self = ctx.rule("C07.listings-account-for-the-listfile-itself", "every function of rebuild.rs that lists an archive (Archive::list / list_all) reaches, in itself or a helper it lists through, a lookup of the literal \"(listfile)\"", floor=3)
+    listers = {}
+    for f in mpq.fn_list:
+        if not f.hir or f.kind == "Closure" or "::rebuild::" not in f.path or "::tests::" in f.path:
+            continue
+        direct = [c for c in hirq.walk(f.hir["body"]) if c.get("k") == "mcall" and c["m"] == "list" and re.search(r"Archive::list$", c.get("fn") or "Archive::list")]
+        if direct:
+            listers[f.path] = (f, direct)
+    n_sites = 0
+    for path, (f, direct) in sorted(listers.items()):
+        ctx.saw_fn(f)
+        ok_ = names_the_listfile(f.hir["body"], mpq)
+        # the sites that obtain a listing: the direct calls, and every call of this function from rebuild.rs (a listing helper)
+        sites = [(f, c) for c in direct]
+        for g in mpq.fn_list:
+            if g.hir and g.kind != "Closure" and "::rebuild::" in g.path and "::tests::" not in g.path and g.path != path:
+                sites += [(g, c) for c in hirq.calls(g.hir["body"]) if c.get("fn") == path]
+        for k, (g, c) in enumerate(sites):
+            n_sites += 1
+            if ok_:
+                ctx.ok(R_self, {"fn": g.path.split("::")[-1], "line": c.get("ln"), "through": f.path.split("::")[-1]})
+            else:
+                ctx.bad(R_self, "%s|list#%d|listfile-uncounted" % (g.path.split("::")[-1], k), "%s:%d" % (g.file, c.get("ln") or 0),
+                        "the archive is listed through `list()` alone: a `(listfile)` that does not name itself is not in the result",
+                        "for such a source (every archive built with an external listfile text) the rebuild regenerates a different `(listfile)` instead of copying the source's, reports one file too few, and with verify=true fails: \"File count mismatch: expected 2, got 3\"")
+    if n_sites == 0:
+        ctx.bad(R_self, "rebuild|no-listing", "-", "no Archive::list call found in rebuild.rs", "shape changed")
+
+    # (2) two listfile lines may name one stored file (case / slash variants, a repeated line): it is one file
+    R_once = ctx.rule("C07.listing-yields-each-stored-file-once", "in Archive::list the entry pushed for a listfile name is guarded by a seen-set test on the table entry find_file resolved it to", floor=1)
+    ls = byp.get("wow_mpq::archive::Archive::list")
+    if ls is None:
+        ctx.bad(R_once, "Archive::list|missing", "-", "function not found", "anchor gone")
+    else:
+        ctx.saw_fn(ls)
+        loops = [l for l in hirq.find(ls.hir["body"], "for") if re.search(r"filenames|names|lines", hirq.render(l["iter"])) and any(c.get("k") == "mcall" and c["m"] == "find_file" for c in hirq.walk(l["body"]))]
+        if not loops:
+            ctx.bad(R_once, "Archive::list|shape", ls.where, "loop over the listfile names not found", "shape changed")
+        for lp in loops:
+            pushes = [c for c in hirq.walk(lp["body"]) if c.get("k") == "mcall" and c["m"] == "push"]
+            seen = [c for c in hirq.walk(lp["body"]) if c.get("k") == "mcall" and c["m"] in ("insert", "contains", "contains_key", "entry") and re.search(r"HashSet|BTreeSet|HashMap|BTreeMap", mpq.ty(hirq.strip(c["recv"]).get("t")) or "")
+                    and re.search(r"hash_index|block_index|file_info|table_indices", hirq.render(c["args"][0]) if c.get("args") else "")]
+            if pushes and seen:
+                ctx.ok(R_once, {"fn": "Archive::list", "seen_test": hirq.render(seen[0])[:70]})
+            else:
+                ctx.bad(R_once, "Archive::list|duplicates", "%s:%d" % (ls.file, lp.get("ln") or 0), "one entry is pushed per listfile line that resolves, with no test whether that table entry was listed already",
+                        "a listfile naming a file twice (`a.txt` and `A.TXT`, `dir/a.txt` and `dir\\\\a.txt`) lists it twice; the rebuild then aborts with \"Duplicate file in archive\", comparisons count it twice")
+
+    # (3) the comparison summary counts files: a file that differs in size *and* in flags is one different file
+    R_cmp = ctx.rule("C07.comparison-summary-counts-files", "compare_archives: identical_files = common - different_files, and different_files is the size of a set of names, not a sum of per-aspect list lengths", floor=1)
+    ca = byp.get("wow_mpq::compare::compare_archives")
+    if ca is None:
+        ctx.bad(R_cmp, "compare_archives|missing", "-", "function not found", "anchor gone")
+    else:
+        ctx.saw_fn(ca)
+        lit = next((n for n in hirq.walk(ca.hir["body"]) if n.get("k") == "struct" and re.search(r"ComparisonSummary$", (n.get("res") or {}).get("def") or mpq.ty(n.get("t")) or "")
+                    and not any(nm == "different_files" and hirq.strip(e).get("k") == "lit" for nm, e in n["fields"])), None)   # (the metadata-only early return carries zeros)
+        if lit is None:
+            ctx.bad(R_cmp, "compare_archives|shape", ca.where, "ComparisonSummary literal not found", "shape changed")
+        else:
+            fd = {nm: e for nm, e in lit["fields"]}
+            def lens(e):
+                out = []
+                for v in [e] + [x for x in hirq.value_leaves(ca.hir["body"], e) if x is not None]:
+                    for x in hirq.walk(v):
+                        if x.get("k") == "mcall" and x["m"] == "len":
+                            out.append((hirq.render(x["recv"]), mpq.ty(hirq.strip(x["recv"]).get("t")) or ""))
+                return list(dict.fromkeys(out))
+            dl = lens(fd.get("different_files"))
+            idl = lens(fd.get("identical_files"))
+            subs = sum(1 for x in hirq.walk(fd.get("identical_files") or {}) if x.get("k") == "bin" and x["op"] == "-")
+            sums = sum(1 for x in hirq.walk(fd.get("different_files") or {}) if x.get("k") == "bin" and x["op"] == "+")
+            if len(dl) == 1 and re.search(r"HashSet|BTreeSet", dl[0][1]) and subs <= 1 and sums == 0:
+                ctx.ok(R_cmp, {"different_files": dl[0][0], "identical_files": hirq.render(fd.get("identical_files"))[:60]})
+            else:
+                ctx.bad(R_cmp, "compare_archives|summary", "%s:%d" % (ca.file, lit.get("ln") or 0), "different_files is built from %d list lengths (%s), identical_files subtracts %d of them from the common count" % (len(dl), ", ".join(d[0].split(".")[-1] for d in dl)[:80], subs),
+                        "a file that differs in two aspects (size and flags, size and content) is counted twice as different and subtracted twice: with few common files the subtraction underflows — a panic in debug builds, identical_files = 18446744073709551615 in release")
